@@ -230,6 +230,9 @@ def cases(ctx):
         yield from _gen(ctx, "q", False, 300)
     else:
         yield from _gen(ctx, "t", True, 3000)
+        # two more passes over all ordered type pairs with other seeded units, categories and values
+        yield from _gen(ctx, "t2", True, 0)
+        yield from _gen(ctx, "t3", True, 0)
 
 
 def model_line(c):
